@@ -60,6 +60,16 @@ def confirm(sc):
     if sc.get('kind') == 'order': return confirm_order()
     if sc.get('kind') == 'runner': return confirm_runner(sc)
     if sc.get('kind') == 'version': return confirm_version(sc)
+    if sc.get('kind') == 'missing-input':
+        d = tempfile.mkdtemp(prefix='vreal_', dir=common.CACHE)
+        try:
+            open(os.path.join(d, 'good.circom'), 'w').write('pragma circom 2.0.0;\ntemplate T() { signal input a; signal output b; b <== a; }\n')
+            args = [os.path.join(d, 'good.circom'), os.path.join(d, 'missing.circom')] if sc.get('n', 1) > 1 else [os.path.join(d, 'missing.circom')]
+            rc, out = run(args, d)
+            got = {'exit': rc, 'kinds': sorted(headers(out))}; exp = {'exit': 1, 'kinds': ['error']}
+            return got != exp, got, exp
+        finally:
+            shutil.rmtree(d, ignore_errors=True)
     return confirm_main(sc)
 
 
